@@ -14,7 +14,7 @@ TRUSTED_BASE = [
     "hand-written model Uflow/Model/Rate.lean generic over FloatOps; theorems hold for every FloatOps; the executable Float instance is compared bit-for-bit with the code (send_rate, rtt bits, rto, mode in every probe)",
 ]
 ASSUMPTIONS = ["that the IEEE evaluation of the throughput equation approximates the real-valued formula is modelled, not verified (bit-exact correspondence ties the Float instance to the code)"]
-RULE = c13.RULE + " Oracle clauses: rate <= ceiling; rate >= 23 once sending; no increase and keep-or-halve on steps without feedback; <= max(2x, W_init/rtt) per slow-start feedback; <= max(X_Bps, floor) in the equation phase."
+RULE = c13.RULE.split(" Plus real Client/Server")[0] + " Non-trivial: the endpoint emitted >= 5 frames. Oracle clauses: rate <= ceiling; rate >= 23 once sending; no increase and keep-or-halve on steps without feedback; <= max(2x, W_init/rtt) per slow-start feedback; <= max(X_Bps, floor) in the equation phase."
 
 MINR = 23
 
@@ -73,7 +73,7 @@ def component_stream(rng, tier):
     return {"name": "component", "mode": "rate", "cases": cases, "meta": meta, "case_timeout": 30}
 
 def streams(rng, tier, ctx):
-    return c13.streams(rng, tier, ctx) + [component_stream(rng, tier)]
+    return c13.streams(rng, tier, ctx, with_ep=False) + [component_stream(rng, tier)]
 
 def component_oracle(ops, outs):
     import struct
